@@ -71,12 +71,12 @@ class cpu_limit:
     def __enter__(self):
         import signal
         self.old = signal.signal(signal.SIGVTALRM, self._handler)
-        signal.setitimer(signal.ITIMER_VIRTUAL, self.seconds)
+        self.prev = signal.setitimer(signal.ITIMER_VIRTUAL, self.seconds)      # the runner's per-case limit may be pending
         return self
 
     def __exit__(self, *a):
         import signal
-        signal.setitimer(signal.ITIMER_VIRTUAL, 0)
+        signal.setitimer(signal.ITIMER_VIRTUAL, self.prev[0] if self.prev else 0)
         signal.signal(signal.SIGVTALRM, self.old)
         return False
 
